@@ -57,6 +57,20 @@ Proof.
   rewrite map_nth. now rewrite seq_nth.
 Qed.
 
+(* without broadcasting (source shape = target shape) the projected index is the index itself *)
+Lemma bproj_same_shape s : forall i stride, (i < prodn s)%nat -> bproj s s i stride = (stride * i)%nat.
+Proof.
+  induction s as [|t s IH]; intros i stride Hi; cbn in *.
+  - lia.
+  - assert (Ht : t <> 0%nat) by (intros ->; cbn in Hi; lia).
+    assert (Hq : (i / t < prodn s)%nat) by (apply Nat.div_lt_upper_bound; [assumption|unfold prodn in *; lia]).
+    rewrite (IH (i / t)%nat (stride * t)%nat Hq).
+    pose proof (Nat.div_mod i t Ht) as Hdm.
+    destruct (t =? 1)%nat eqn:E.
+    + apply Nat.eqb_eq in E. subst t. rewrite Nat.div_1_r. lia.
+    + nia.
+Qed.
+
 Section R.
   Variable lgam : R -> R.
   Notation O := (ROpsG lgam).
@@ -840,4 +854,27 @@ Section R.
   Proof. destruct f; intros H; try congruence; split; reflexivity. Qed.
   Lemma acc_uniform_R los his : acc_minval los his = los /\ acc_scale O FUniform los his = map2 (fun lo hi => hi - lo) los his.
   Proof. split; reflexivity. Qed.
+
+  (* ================= the class called with raw constructor arguments (shapes + flat data) ================= *)
+  Definition two_arg (f : fam) : bool := match f with FStudentT | FExponential => false | _ => true end.
+  Lemma class_log_prob_ctor2 f a b d xs : two_arg f = true ->
+    class_log_prob O f a b d xs =
+    fam_log_prob O f (bcast O (fst a) (bshape_rev (fst a) (fst b)) (snd a)) (bcast O (fst b) (bshape_rev (fst a) (fst b)) (snd b)) [] xs.
+  Proof. destruct f; intros H; try discriminate; reflexivity. Qed.
+  Lemma class_log_prob_studentt a b d xs :
+    let rt := bshape_rev (bshape_rev (fst a) (fst b)) (fst d) in
+    class_log_prob O FStudentT a b d xs = fam_log_prob O FStudentT (bcast O (fst a) rt (snd a)) (bcast O (fst b) rt (snd b)) (bcast O (fst d) rt (snd d)) xs.
+  Proof. reflexivity. Qed.
+  (* e.g. Normal(loc, scale) with arguments of any two broadcastable shapes: the event has prod(broadcast shape) coordinates,
+     coordinate i sees loc[bproj i] and scale[bproj i] *)
+  Lemma class_normal_spec a b d xs :
+    let rt := bshape_rev (fst a) (fst b) in
+    let locs := bcast O (fst a) rt (snd a) in
+    let scales := bcast O (fst b) rt (snd b) in
+    length xs = prodn rt -> Forall (fun s => 0 < s) scales ->
+    class_log_prob O FNormal a b d (map Fin xs) = esum (map3 (fun m s x => elog (normal_pdf m s x)) locs scales xs).
+  Proof.
+    intros rt locs scales Hx Hs. rewrite class_log_prob_ctor2 by reflexivity. unfold locs, scales, rt in *.
+    apply normal_spec; [now rewrite bcast_length|now rewrite bcast_length|exact Hs].
+  Qed.
 End R.
